@@ -30,6 +30,7 @@ var polluteNames = []string{
 	"codec-rejected-inputs",
 	"decode-cose-garbage+other-token",
 	"derived-profile-documents-refused-midway",
+	"stock-factory-claims-changed-through-their-pointers",
 }
 
 func pollute(kind int) {
@@ -103,6 +104,41 @@ func pollute(kind int) {
 			}
 		}
 		_, _ = psatoken.DecodeClaimsFromCBOR(mcbor.Encode(t2))
+	case 11:
+		// claims-sets handed out by NewClaims / the profile objects are the caller's: renamed, emptied and overwritten through
+		// their exported fields (as a profile derived from them does), decoded into, and dropped
+		if x, err := psatoken.NewClaims(refmodel.P2Name); err == nil {
+			if c2, ok := x.(*psatoken.P2Claims); ok {
+				if c2.Profile != nil {
+					_ = c2.Profile.Set("http://example.com/psa/derived-from-p2")
+				}
+				c2.CanonicalProfile = "http://example.com/psa/derived-from-p2"
+				if c2.SwComponents != nil {
+					_ = c2.SwComponents.Add(realComp(okComp(0x31, 32)))
+				}
+				t := wireTree(cl[3], true)
+				t.Pairs[0][1] = mcbor.T("http://example.com/psa/yet-another")
+				_ = c2.UnmarshalCBOR(mcbor.Encode(t))
+			}
+		}
+		if x := (psatoken.Profile2{}).GetClaims(); x != nil {
+			if c2, ok := x.(*psatoken.P2Claims); ok && c2.Profile != nil {
+				_ = c2.Profile.Set("1.2.3.4")
+			}
+		}
+		if x, err := psatoken.NewClaims(refmodel.P1Name); err == nil {
+			if c1, ok := x.(*psatoken.P1Claims); ok {
+				if c1.Profile != nil {
+					*c1.Profile = "SOMETHING_ELSE"
+				}
+				c1.CanonicalProfile = "SOMETHING_ELSE"
+				_ = c1.SetSoftwareComponents(nil)
+				if c1.NoSwMeasurements != nil {
+					*c1.NoSwMeasurements = 7
+				}
+				_ = c1.UnmarshalJSON(wireJSON(cl[1]))
+			}
+		}
 	case 9:
 		ev := &psatoken.Evidence{}
 		_ = ev.UnmarshalCOSE([]byte{0xd2, 0x84, 0x40, 0xa0, 0xf6, 0x40})
